@@ -98,12 +98,13 @@ def x1_panic_sites(ck, ctx):
     ck.extra["discharge_counts"] = counts
     ck.extra["numeric_sites_not_decided"] = numeric
     ck.extra["functions_in_scope"] = len(seen)
-    ck.floor("X1", total, 150, "panic sites reachable from Searcher::analyze")
+    ck.floor("X1", total, {"dev": 150, "release": 80}, "panic sites reachable from Searcher::analyze")
     for (fn, key), e in sorted(reviewed.items()):
         if (fn, key) not in used and fn in seen:
             sites = {s.key for s in panics.inventory(prog, prog.body(fn))}
             if key not in sites:
-                ck.fail("X1.stale_review", "%s:%s" % (fn, key), "", "reviewed entry names a site that no longer exists")
+                # not a property violation: a stale entry discharges nothing; reported in the evidence only
+                ck.extra.setdefault("stale_reviews", []).append("%s:%s" % (fn, key))
 
 
 def x2_interrupt_discipline(ck):
